@@ -5,7 +5,7 @@
 //!                 driver carries the same structs as `FieldSpec` lists)
 //!               | <struct>~<spec>   a struct of the GENERATED family (c18_family.rs, written by
 //!                 tools/gen_c18_family.py: 66 structs over every per-field combination of kind x
-//!                 default x type x alias, 12 token-attribute structs); <spec> is its FieldSpec text
+//!                 default x type x alias, 12 token-attribute structs, 20 attribute-list layout variants); <spec> is its FieldSpec text
 //!                 `name:kind:default:type:alias:token/...`, which the driver reads from the line and
 //!                 the harness checks against the generated table (no second table to drift)
 //!   <pairs>     = `-` | item (`,` item)*           the ordered (key, value) pairs of the document
@@ -759,7 +759,7 @@ pub fn exec(w: &[&str], obs: &mut Obs) -> Option<String> {
                 return Some("spec-mismatch".into());
             }
             let (t, b) = run_schema(id, &p, &case, obs)?;
-            let hid = if id.contains('~') { if id.starts_with('T') { "family-tok" } else { "family" } } else { *id };
+            let hid = if id.contains('~') { if id.split('/').any(|f| !f.ends_with(":-")) { "family-tok" } else { "family" } } else { *id };
             obs.count(&format!("{}:T:{}", hid, if t.starts_with("err:") { t.split(':').take(2).collect::<Vec<_>>().join(":") } else { "ok".into() }));
             obs.count(&format!("{}:B:{}", hid, if b.starts_with("err:") { b.split(':').take(2).collect::<Vec<_>>().join(":") } else { "ok".into() }));
             let numeric_key = p.iter().any(|it| it.key.bytes().all(|c| c.is_ascii_digit()));
@@ -1104,7 +1104,7 @@ pub fn gen(g: &mut Gen) {
                 let nu = g.rng.below(3);
                 for _ in 0..nu {
                     let pos = g.rng.below(p.len() + 1);
-                    let it = unknown_item(&mut g.rng, !name.starts_with('T'), 900 + p.len() as i32);
+                    let it = unknown_item(&mut g.rng, !spec.split('/').any(|f| !f.ends_with(":-")), 900 + p.len() as i32);
                     p.insert(pos, it);
                 }
                 emit(g, &id, &p);
